@@ -21,7 +21,7 @@ static void run_case(CaseCtx& c)
         go.nth_min = go.nth_max = rng.pick({4, 8});
     }
     // a few levels above 10 000 nodes (thresholds of `omp parallel if` clauses and of the parallel vector kernels), many threads
-    const bool large = rng.coin(0.04);
+    const bool large = rng.coin(c.thorough() ? 0.012 : 0.04);
     if (large) {
         go.nr_min = 81; go.nr_max = 97; go.nth_min = 128; go.nth_max = 160;
     }
